@@ -184,9 +184,13 @@ def listcomp(eng, n, fr):
     length = eng.run.fresh('complen', I)
     eng.run.assume(length >= 0, silent=True)
     eng.heap.set('L.len', z3.Store(ln, r, length))
-    # every element comes from a selected source element, every selected source element appears
-    eng.run.assume(z3.ForAll([j], z3.Implies(z3.And(0 <= j, j < length), z3.Exists(vars_, z3.And(guard, row[j] == et)))), silent=True)
-    eng.run.assume(z3.ForAll(vars_, z3.Implies(guard, z3.Exists([j], z3.And(0 <= j, j < length, row[j] == et)))), silent=True)
+    # every element comes from a selected source element (Skolem arrays src_v: result index -> source element, so that
+    # the fact is triggered by row[j]), every selected source element appears
+    src = [eng.run.fresh('src', arr(I, v.sort())) for v in vars_]
+    sub_j = [(v, a[j]) for v, a in zip(vars_, src)]
+    eng.run.assume(z3.ForAll([j], z3.Implies(z3.And(0 <= j, j < length),
+                                             z3.And(z3.substitute(guard, *sub_j), row[j] == z3.substitute(et, *sub_j))),
+                             patterns=[row[j]]), silent=True)
     eng.run.assume((length == 0) == z3.Not(z3.Exists(vars_, guard)), silent=True)
     if isinstance(coll, ListV) and len(vars_) == 1:
         # order-preserving embedding pos: selected source index -> result index (strictly monotone, onto)
@@ -197,8 +201,11 @@ def listcomp(eng, n, fr):
         e1 = z3.substitute(et, (vars_[0], i1))
         eng.run.assume(z3.ForAll([i1], z3.Implies(g1, z3.And(0 <= pos[i1], pos[i1] < length, row[pos[i1]] == e1))), silent=True)
         eng.run.assume(z3.ForAll([i1, i2], z3.Implies(z3.And(g1, g2, i1 < i2), pos[i1] < pos[i2])), silent=True)
-        eng.run.assume(z3.ForAll([j], z3.Implies(z3.And(0 <= j, j < length),
-                                                 z3.Exists([i1], z3.And(g1, pos[i1] == j)))), silent=True)
+        eng.run.assume(z3.ForAll([j], z3.Implies(z3.And(0 <= j, j < length), pos[src[0][j]] == j), patterns=[row[j]]), silent=True)
+    else:
+        posf = z3.Function(f'posf!{eng.run.fresh_n}', *([v.sort() for v in vars_] + [I]))
+        pj = posf(*vars_)
+        eng.run.assume(z3.ForAll(vars_, z3.Implies(guard, z3.And(0 <= pj, pj < length, row[pj] == et))), silent=True)
     return nl
 
 
